@@ -147,6 +147,11 @@ func (cuckooFilter *CuckooFilter) Remove(data []byte) bool {
 
 // Equals checks if two CuckooFilter are same or not
 func (aFilter *CuckooFilter) Equals(bFilter *CuckooFilter) bool {
+	if aFilter.size != bFilter.size || aFilter.bucketSize != bFilter.bucketSize ||
+		aFilter.fingerPrintLength != bFilter.fingerPrintLength || aFilter.retries != bFilter.retries ||
+		aFilter.length != bFilter.length || len(aFilter.buckets) != len(bFilter.buckets) {
+		return false
+	}
 	count := 0
 	result := true
 	for result && count < len(aFilter.buckets) {
